@@ -13,7 +13,9 @@
 // (history.go): several packs / records are filled first and only then written and decoded,
 // sequentially, on several goroutines, and under the race detector (keys
 // <Pack>.<Field>:not-restored/after-later-encode, <Step>:decoded-altered-later,
-// <Func>:later-encode-depends-on-returned-slice).
+// <Func>:later-encode-depends-on-returned-slice). Decodes into used objects (redecode.go):
+// every type of the scope decodes bytes A, then bytes B into ONE object (keys
+// <Type>.<section>:stale-after-redecode, <Type>.<section>:earlier-decode-altered).
 package main
 
 import (
@@ -950,7 +952,10 @@ func main() {
 		c.Count("packs_errorsnap_decoded", 1)
 	})
 
-	// (8) histories with several live objects, sequential and on several goroutines
+	// (8) histories of decodes into one object (redecode.go)
+	redecodeSection()
+
+	// (9) histories with several live objects, sequential and on several goroutines
 	historySections(false)
 
 	sh := int64(c.NShards)
